@@ -34,10 +34,10 @@ Qed.
 (** * Booleans on [comparison] *)
 
 Lemma is_ge_not_lt : forall c, is_ge c = true <-> c <> Lt.
-Proof. destruct c; simpl; split; intros; congruence. Qed.
+Proof. destruct c; cbv; split; intros; congruence. Qed.
 
 Lemma is_le_not_gt : forall c, is_le c = true <-> c <> Gt.
-Proof. destruct c; simpl; split; intros; congruence. Qed.
+Proof. destruct c; cbv; split; intros; congruence. Qed.
 
 Lemma is_lt_iff : forall c, is_lt c = true <-> c = Lt.
 Proof. destruct c; simpl; split; intros; congruence. Qed.
@@ -358,18 +358,15 @@ Proof.
   - apply is_nilv_true in Ne. subst e. simpl.
     destruct (is_nilv s) eqn:Ns.
     + apply is_nilv_true in Ns. subst s. simpl in H.
-      rewrite compare_refl in H. simpl in H.
-      rewrite !andb_false_r in H. simpl in H.
-      destruct si; simpl in H; [discriminate H | ].
-      destruct ei; simpl in H; [discriminate H | ]. reflexivity.
+      try rewrite compare_refl in H.
+      destruct si, ei; simpl in H; try discriminate H. reflexivity.
     + simpl. unfold below. simpl. apply andb_true_r.
   - rewrite andb_false_r. simpl. unfold above, below. rewrite Ne. simpl.
     destruct (is_nilv s) eqn:Ns.
     + apply is_nilv_true in Ns. subst s. simpl in H.
-      rewrite compare_nil_l, Ne in H. simpl in H.
-      rewrite andb_false_r in H. simpl in H.
+      rewrite compare_nil_l, Ne in H.
       destruct si; simpl in H; discriminate H.
-    + simpl. simpl in H. rewrite !andb_false_r in H. simpl in H.
+    + simpl. simpl in H.
       destruct (compare s e) eqn:C; simpl in H.
       * (* s ~ e, both exclusive *)
         destruct si; simpl in H; [discriminate H | ].
@@ -402,6 +399,77 @@ Proof.
 Qed.
 
 (* ------------------------------------------------------------------ *)
+(** * Two shape invariants of intersections (used by the planner-level emptiness theorem) *)
+
+(* the end bound is VNil and inclusive: only the nil-only range and what [range_intersect] makes of it *)
+Definition nil_end (r : range) : bool := is_nilv (r_end r) && r_einc r.
+
+(* a VNil start bound never comes with an exclusive VNil end bound *)
+Definition start_ok (r : range) : bool :=
+  implb (is_nilv (r_start r)) (negb (is_nilv (r_end r)) || r_einc r).
+
+Lemma pick_end_nil_end : forall e1 j1 e2 j2,
+  is_nilv (fst (pick_end e1 j1 e2 j2)) && snd (pick_end e1 j1 e2 j2) = true ->
+  is_nilv e1 && j1 = true \/ is_nilv e2 && j2 = true.
+Proof.
+  intros e1 j1 e2 j2. unfold pick_end.
+  destruct (compare e2 e1) eqn:C; simpl.
+  - intros H. left. apply andb_true_iff in H as [N J].
+    apply andb_true_iff in J as [J _]. rewrite N, J. reflexivity.
+  - auto.
+  - destruct (is_nilv e1) eqn:N1; simpl.
+    + apply is_nilv_true in N1. subst e1. rewrite compare_nil_r in C.
+      destruct (is_nilv e2); simpl; [discriminate C | intros H; discriminate H].
+    + rewrite N1. simpl. intros H. discriminate H.
+Qed.
+
+Lemma intersect_nil_end : forall r1 r2,
+  nil_end (range_intersect r1 r2) = true -> nil_end r1 = true \/ nil_end r2 = true.
+Proof.
+  intros r1 r2 H. rewrite range_intersect_eq in H. unfold nil_end in *. simpl in H.
+  apply pick_end_nil_end. exact H.
+Qed.
+
+Lemma pick_start_nil_both : forall s1 i1 s2 i2,
+  is_nilv (fst (pick_start s1 i1 s2 i2)) = true -> is_nilv s1 = true /\ is_nilv s2 = true.
+Proof.
+  intros s1 i1 s2 i2. unfold pick_start.
+  destruct (compare s2 s1) eqn:C; simpl.
+  - intros N. split; [exact N | ]. apply is_nilv_true in N. subst s1.
+    apply compare_nil_eq in C. subst s2. reflexivity.
+  - destruct (is_nilv s1) eqn:N1; simpl.
+    + apply is_nilv_true in N1. subst s1. rewrite compare_nil_r in C.
+      destruct (is_nilv s2); discriminate C.
+    + intros N. rewrite N in N1. discriminate N1.
+  - intros N. apply is_nilv_true in N. subst s2. rewrite compare_nil_l in C.
+    destruct (is_nilv s1); discriminate C.
+Qed.
+
+Lemma pick_end_ok : forall e1 j1 e2 j2,
+  negb (is_nilv e1) || j1 = true -> negb (is_nilv e2) || j2 = true ->
+  negb (is_nilv (fst (pick_end e1 j1 e2 j2))) || snd (pick_end e1 j1 e2 j2) = true.
+Proof.
+  intros e1 j1 e2 j2 H1 H2. unfold pick_end.
+  destruct (compare e2 e1) eqn:C; simpl.
+  - destruct (is_nilv e1) eqn:N1; simpl; [ | reflexivity].
+    apply is_nilv_true in N1. subst e1. apply compare_nil_eq in C. subst e2.
+    simpl in H1, H2. rewrite H1, H2. reflexivity.
+  - exact H2.
+  - destruct (is_nilv e1) eqn:N1; simpl; [exact H2 | ]. rewrite N1. reflexivity.
+Qed.
+
+Lemma intersect_start_ok : forall r1 r2,
+  start_ok r1 = true -> start_ok r2 = true -> start_ok (range_intersect r1 r2) = true.
+Proof.
+  intros r1 r2 H1 H2. rewrite range_intersect_eq. unfold start_ok in *. simpl.
+  destruct (is_nilv (fst (pick_start (r_start r1) (r_sinc r1) (r_start r2) (r_sinc r2)))) eqn:N;
+    [ | reflexivity].
+  simpl. destruct (pick_start_nil_both _ _ _ _ N) as [N1 N2].
+  rewrite N1 in H1. rewrite N2 in H2. simpl in H1, H2.
+  apply pick_end_ok; assumption.
+Qed.
+
+(* ------------------------------------------------------------------ *)
 
 Print Assumptions regime_cmp_dom3.
 Print Assumptions intersect_sound.
@@ -411,3 +479,5 @@ Print Assumptions empty_in_range_char.
 Print Assumptions empty_sound_bounded.
 Print Assumptions in_range_nil.
 Print Assumptions compare_nil_eq.
+Print Assumptions intersect_nil_end.
+Print Assumptions intersect_start_ok.
